@@ -667,7 +667,12 @@ FormatterToHTML::processingInstruction(
                 accumContent(XalanUnicode::charSpace);
             }
 
-            writeCharacters(data, dataLength);
+            // No escaping exists inside a processing instruction: the
+            // data is written as it is, like the xml output method does.
+            for (size_type i = 0; i < dataLength; ++i)
+            {
+                accumContent(data[i]);
+            }
         }
 
         accumContent(XalanUnicode::charGreaterThanSign); // different from XML
